@@ -343,7 +343,16 @@ func logUniform(r *gen.Rand, lo, hi float64) float64 {
 
 // genPi draws base frequencies in the open simplex with every pi >= 0.01.
 func genPi(r *gen.Rand) (pi [4]float64, class string) {
-	switch r.Intn(8) {
+	switch r.Intn(9) {
+	case 8: // extremely skewed: three bases at 1e-3 .. 1e-5 (still inside the open simplex; eigenvalues of -150 .. -1700)
+		class = "extremely-skewed"
+		e := r.PickF([]float64{1e-3, 3e-4, 2e-4, 1e-4})
+		k := r.Intn(4)
+		for i := range pi {
+			pi[i] = e
+		}
+		pi[k] = 1 - 3*e
+		return
 	case 0:
 		return [4]float64{.25, .25, .25, .25}, "uniform"
 	case 1: // one frequency on the lower bound
@@ -845,6 +854,24 @@ func protPoint(c *mon.Case, tb protTable, user []float64, byName bool, gamma boo
 	if user != nil {
 		arg = append([]float64{}, user...)
 	}
+	if c.R.Chance(0.25) {
+		// error path first: a frequency vector of the wrong length is refused and must leave no trace in the object
+		bad := make([]float64, []int{19, 21, 0, 1}[c.R.Intn(4)])
+		for i := range bad {
+			bad[i] = 1 / float64(len(bad))
+		}
+		var e2 error
+		pan, msg, _ := mon.Protect(func() { e2 = pm.InitModel(bad) })
+		if pan {
+			c.Failf(tb.name+":refused-frequencies-panic", "%s\nInitModel with %d frequencies panicked: %s", desc, len(bad), msg)
+			return point{}, false
+		}
+		if e2 == nil && len(bad) > 0 {
+			c.Failf(tb.name+":wrong-length-frequencies-accepted", "%s\nInitModel accepted %d frequencies", desc, len(bad))
+			return point{}, false
+		}
+		c.Count("prot:refused-frequencies-then-init")
+	}
 	if err = pm.InitModel(arg); err != nil {
 		c.Failf(tb.name+":unexpected-error", "%s\nInitModel: %v", desc, err)
 		return point{}, false
@@ -990,6 +1017,7 @@ func main() {
 		mon.Floor("reparam:"+m, 500)
 	}
 	mon.Floor("concurrent:matrices", 10000)
+	mon.Floor("prot:refused-frequencies-then-init", 200)
 	mon.Floor("tables:literature-matrix", 2)
 	mon.Floor("tables:literature-frequencies", 4)
 	mon.Floor("check:semigroup", 10000)
